@@ -211,9 +211,12 @@ def search(L, fin, outs, fb, tol):
                         break
                     picks[i] = (lo, hi, d, point)
                 else:
-                    # every intermediate of the helper's float evaluation: fin/n, *m, (*o: a power of two), *c, /o, /cx
-                    ex = Lazy(lambda: all(representable(x) for x in [pfd, fbout, fpll] + [fpll / picks[i][2] for i in picks]))
-                    if not tol.within(fbout, f_fb, m_fb, ex) or any(pt and not ex() for lo, hi, d, pt in picks.values()):
+                    # exactness clause: the intermediates of the helper's float evaluation up to the value compared -
+                    # fin/n, *m, (*o: a power of two), *c, /o for every test; additionally /cx for the output tested
+                    ex = Lazy(lambda: all(representable(x) for x in (pfd, fbout, fpll)))
+                    if not tol.within(fbout, f_fb, m_fb, ex):
+                        continue
+                    if any(pt and not (ex() and representable(fpll / d)) for lo, hi, d, pt in picks.values()):
                         continue
                     if not tol.inside(fpll, L.pll, ex):
                         continue
@@ -342,17 +345,16 @@ class Efinix(Family):
             self._limits[dev] = Limits(pll, dev)
         return self._limits[dev]
 
-    def ref_applicable(self, pll, req):
-        if not self.computes(pll, req):
-            return "pass-through: the vendor tool computes the dividers"
-        return None
-
     def ref_search(self, pll, req, tol):
+        self._suffix = ""
         if len(req.outs) > pll.nclkouts_max:
             return None
+        if not self.computes(pll, req):
+            # LiteX computes nothing and declares no range for such a request: it has no ground to refuse it
+            self._suffix = ".passthrough"
+            return dict(note="pass-through request (the vendor tool computes the dividers): nothing for LiteX to refuse")
         L, fb = self.limits(pll), self.fb_index(req)
         w = search(L, req.fin, req.outs, fb, tol)
-        self._suffix = ""
         if w is not None and tol.narrow and any(m != 0 for f, p, m in req.outs):
             # the solution needs a margin: compute_config compares for equality and never looks at the margins
             if search(L, req.fin, [(f, p, 0) for f, p, m in req.outs], fb, tol) is None:
@@ -477,3 +479,34 @@ class Efinix(Family):
     def used_nontrivially(self, dec):
         N, M, Cs = dec
         return dict(input_div_gt1=int(N > 1), postdiv_gt1=int(self._O > 1), mult_gt1=int(M > 1))
+
+
+def selftest(count=60, seed=3):
+    """validate `search` against `brute` (and its witnesses against `verify`) on a seeded sample of the quick grid:
+    /venv/bin/python -m checks.c20_efinix [count]"""
+    import random
+    from checks import c20_pll as C
+    from checks.c20_ref import WIDE as W
+    cfg = [c for c in C.configs("quick") if c[0].startswith("TRIONPLL")][0]
+    fam = C.families()[cfg[1]]
+    probe = fam.new(fam.variants()[cfg[2]][1])
+    L = fam.limits(probe)
+    reqs = [r for r in C.grid_for(fam, probe, "quick").requests() if fam.fb_index(r) is not None]
+    random.Random(seed).shuffle(reqs)
+    sat = unsat = 0
+    for r in reqs[:count]:
+        fb = fam.fb_index(r)
+        a, b = search(L, r.fin, r.outs, fb, W), brute(L, r.fin, r.outs, fb, W)
+        assert (a is None) == (b is None), ("search and brute force disagree", r, a, b)
+        if a is None:
+            unsat += 1
+            continue
+        sat += 1
+        bad = verify(L, r.fin, r.outs, fb, int(a["D"]), int(a["M"]), a["postdiv_O"], [int(p[2]) for p in a["picks"]], W)
+        assert not bad, ("witness of search does not verify", r, a, bad)
+    return dict(requests=sat + unsat, satisfiable=sat, unsatisfiable=unsat)
+
+
+if __name__ == "__main__":
+    import sys
+    print(selftest(int(sys.argv[1]) if len(sys.argv) > 1 else 60))
